@@ -107,11 +107,11 @@ class Iter:
 
 
 class HVec:
-    """heapless::Vec<T, CAP> / heapless::String<CAP>"""
-    __slots__ = ('items', 'cap', 'is_str')
+    """heapless::Vec<T, CAP> / heapless::String<CAP>; with std=True: std::vec::Vec / String of the std-feature build"""
+    __slots__ = ('items', 'cap', 'is_str', 'std')
 
     def __init__(s, cap, is_str=False):
-        s.items, s.cap, s.is_str = [], cap, is_str
+        s.items, s.cap, s.is_str, s.std = [], cap, is_str, False
 
     def __repr__(s):
         return f'HVec{s.items}/{s.cap}'
@@ -892,6 +892,8 @@ def callee_env(txt, env):
 def rt_type(v):
     """static type name recovered from a runtime value (for `impl Trait` / generic receivers)"""
     if isinstance(v, HVec):
+        if v.std:
+            return 'String' if v.is_str else 'Vec<u8>'
         return 'String<N>' if v.is_str else 'Vec<u8, N>'
     if isinstance(v, Adt):
         return v.ty
